@@ -413,7 +413,7 @@ def real_case(cfg, resume=False):
                 tmp = tmpdir()
                 c = dict(c, output_dir=tmp, output_label="r")
                 s, t, like, pt = runs.build(c)
-                s.run(n_total=c["n_total"], progress=False, save_every=1)
+                s.run(n_total=c["n_total"], progress=runs.prog(c), save_every=1)
                 files = sorted([f for f in os.listdir(tmp) if f.startswith("r_") and "final" not in f], key=lambda f: int(f.split("_")[1].split(".")[0]))
                 pick = files[len(files) // 2] if files else None
                 if pick and resume == "used":
@@ -422,14 +422,14 @@ def real_case(cfg, resume=False):
                     for _ in range(1 + int(c["seed"]) % 3):
                         s.sample()
                     for pk in (files[max(0, len(files) // 3)], files[len(files) // 2]):
-                        s.run(n_total=int(1.5 * c["n_total"]), progress=False, resume_state_path=os.path.join(tmp, pk))
+                        s.run(n_total=int(1.5 * c["n_total"]), progress=runs.prog(c), resume_state_path=os.path.join(tmp, pk))
                     out["used_resume"] = 1
                 elif pick:
                     s2, _, _, _ = runs.build(c)
-                    s2.run(n_total=c["n_total"], progress=False, resume_state_path=os.path.join(tmp, pick))
+                    s2.run(n_total=c["n_total"], progress=runs.prog(c), resume_state_path=os.path.join(tmp, pick))
             else:
                 s, t, like, pt = runs.build(c)
-                s.run(n_total=c["n_total"], progress=False)
+                s.run(n_total=c["n_total"], progress=runs.prog(c))
         out["bad"] += mon.bad
     except Exception as e:
         gap = mon.label_map is not None and mon.label_map != list(range(len(mon.label_map)))
